@@ -19,11 +19,11 @@ STATUS_Q = [200, 201, 204, 302, 404, 500]
 STATUS_T = STATUS_Q + [202, 205, 301, 303, 307, 399, 400, 403, 410, 503]
 # link = list of (header, form); forms: abs-path '/cN/b', rel 'b', abs-same 'http://<same host:port>/cN/b',
 # other-host 'http://localhost:<port>/cN/b' (different host name, nothing asserted for u2)
-LINKS_Q = [[], [('Location', 'abs-path')], [('Location', 'abs-same')], [('Location', 'other-host')],
-           [('Content-Location', 'abs-path')], [('Content-Location', 'abs-same')], [('Content-Location', 'other-host')],
-           [('Location', 'rel')], [('Content-Location', 'rel')]]
+LINKS_CORE = [[], [('Location', 'abs-path')], [('Location', 'abs-same')], [('Location', 'other-host')],
+              [('Content-Location', 'abs-path')], [('Content-Location', 'abs-same')], [('Content-Location', 'other-host')]]
+LINKS_REL = [[('Location', 'rel')], [('Content-Location', 'rel')]]
 # further forms, swept (thorough) over a reduced method/status set
-LINKS_SWEEP = [[('Location', 'other-host'), ('Content-Location', 'abs-same')],
+LINKS_SWEEP = LINKS_REL + [[('Location', 'other-host'), ('Content-Location', 'abs-same')],
                [('Location', 'abs-path'), ('Content-Location', 'other-host')],
                [('Location', 'abs-same-lc-name')], [('Content-Location', 'abs-same-ows')],
                [('Location', 'rel-query')], [('Content-Location', 'rel-query')]]
@@ -51,7 +51,7 @@ def all_cases(quick):
         for q in queries:
             for m in methods:
                 for st in statuses:
-                    for ln in LINKS_Q:
+                    for ln in LINKS_CORE + (LINKS_REL if quick else []):
                         add(prime, q, m, st, ln)
     if not quick:
         for q in queries:
@@ -151,7 +151,7 @@ def run_case(w, case):
     req = '%s %s HTTP/1.1\r\nHost: %s\r\nContent-Length: 4\r\n\r\ndata' % (case['method'], w.url(pu), w.hostport())
     ex = w.fetch(req.encode('latin1'), unsafe_responder)
     st = ex.response.status if ex.response and ex.response.complete and not ex.response.error else 0
-    fwd = [m for m in ex.origin_requests if m.method.decode('latin1') == case['method']]
+    fwd = [m for m in ex.origin_requests if m.method.decode('latin1').upper() == case['method'].upper()]
     tr.append('unsafe %s %s -> client status %s, origin saw %d request(s); response fields %r' % (case['method'], pu, st, len(ex.origin_requests), lines))
     if len(fwd) != 1 or st != rstatus:
         # the unsafe exchange did not happen as specified: nothing to assert
